@@ -66,27 +66,27 @@ def run(chk):
                    f"clean_billing_data ({iv}): the off-cycle warning must fire on the complement (days > {hi:g} or days < {lo:g}); found {w[0] if w else None}")
     # downsample 50 % rule
     ds = chk.repo.func(DPU, "downsample_and_clean_daily_data")
-    D = ds.params[0]
-    dres, _so = make_resolver(ds.node)
-    dpc = PatCtx(ds.node)
-    masks = []
-    for n in ast.walk(ds.node):
-        if isinstance(n, ast.Subscript) and unparse(n.value) in (D, D + ".loc"):
-            sl = n.slice.elts[0] if isinstance(n.slice, ast.Tuple) else n.slice
-            st = dpc.stmt_of(n) if dpc.stmt_of else None
-            m = mask_terms(sl, dres, st)
-            if m is not None:
-                masks.append((m, n))
-    kinds = {tuple(sorted(m[1])) for m, n in masks}
-    r1.require(kinds == {((f"{D}.coverage", "<=", 0.5),), ((f"{D}.coverage", ">", 0.5),)}, f"{ds.key}|coverage-masks", ds.where(),
-               f"downsample_and_clean_daily_data must use exactly the complementary masks coverage > 0.5 (keep) and coverage <= 0.5 (warn); found {sorted(kinds)}", sample={"masks": sorted(map(str, kinds))})
-    rets = [s for s in walk_no_nested(ds.node) if isinstance(s, ast.Return)]
-    ok_ret = len(rets) == 1 and (dpc.has(f"return {D}[{D}.coverage > 0.5].reindex({D}.index)[['value']]", bind=False)
-                                 or dpc.has(f"return {D}.loc[{D}.coverage > 0.5].reindex({D}.index)[['value']]", bind=False)
-                                 or dpc.has(f"return {D}[{D}['coverage'] > 0.5].reindex({D}.index)[['value']]", bind=False))
-    r1.require(ok_ret, f"{ds.key}|returns-kept-reindexed", ds.where(),
-               "days covered for half or less must come back missing: return dataset[coverage > 0.5].reindex(dataset.index)[['value']]")
-    r1.require(dpc.has(f"{D} = as_freq({D}, 'D', include_coverage=True)", bind=False), f"{ds.key}|daily-cumulative", ds.where(), "sub-daily usage must be aggregated with as_freq(..., 'D', include_coverage=True) (cumulative)")
+    # interpreted under the one-row abstraction (rules/downsample_absint.py): a day of coverage c and rolled-up value v
+    from rules.downsample_absint import VALUE, outcomes as downsample_outcomes
+    W50 = "eemeter.sufficiency_criteria.missing_high_frequency_meter_data"
+    for o in downsample_outcomes(chk):
+        c = o["coverage"]
+        key = f"{ds.key}|day-of-coverage:{c:g}"
+        if "present" not in o:
+            r1.require(False, key, ds.where(), f"downsample_and_clean_daily_data on a day of coverage {c:g}: {o}")
+            continue
+        want = VALUE / c if c > 0.5 else None
+        got = o["value"]
+        same = (want is None and got is None) or (want is not None and got is not None and abs(got - want) < 1e-9)
+        r1.require(o["present"] and same and o["columns"] == ["value"], key + "|returns-kept-reindexed", ds.where(),
+                   f"downsample_and_clean_daily_data: a day with {c:.0%} of its readings present must come back as a row holding "
+                   f"{'the sum of the readings present divided by the coverage (' + format(want, 'g') + ' for a sum of ' + format(VALUE, 'g') + ')' if want is not None else 'NaN (half or fewer of the readings present)'}; "
+                   f"found {'a row holding ' + str(got) if o['present'] else 'no row for that day'} (columns {o['columns']})", sample={"coverage": c, "outcome": {k_: v_ for k_, v_ in o.items() if k_ != 'as_freq'}})
+        r1.require((W50 in o["warned"]) == (c <= 0.5), key + "|warns", ds.where(),
+                   f"downsample_and_clean_daily_data: the missing-high-frequency-data warning must fire iff a day has half or fewer of its readings; coverage {c:g}: warned {o['warned']}")
+        af = o.get("as_freq")
+        r1.require(af is not None and af[0] == "D" and dict(af[2]).get("include_coverage") is True and dict(af[2]).get("series_type", "cumulative") == "cumulative" and not af[1],
+                   f"{ds.key}|daily-cumulative|{c:g}", ds.where(), f"sub-daily usage must be aggregated with as_freq(..., 'D', include_coverage=True) (cumulative); found {af}")
     # granularity cut points: compute_minimum_granularity interpreted on abstract indexes (one representative per side of every cut point)
     import datetime as _dt
     from engine.absint import AbsObj, ClassRef, ModuleEnv
@@ -149,13 +149,11 @@ def run(chk):
     from rules.asfreq_absint import check as check_as_freq
     check_as_freq(chk, r2, r3)
     sites = rescale_sites(chk, ds)
-    r2.require(len(sites) == 1, f"{ds.key}|rescale-present", ds.where(), "a day covered for more than half must be scaled by 1/coverage: dataset.value / dataset.coverage on the kept rows")
+    # (that a well-covered day comes back as value / coverage, on exactly those rows, is decided by the one-row interpretation above)
     for s, base in sites:
         kinds_ = frame_kind(chk, ds, s, base, br)
         r2.require(kinds_ == {"sum"}, f"{ds.key}|rescale-on-sum", ds.where(s), f"value/coverage in downsample_and_clean_daily_data is applied to a frame of kind {sorted(kinds_)} (must be a sum)")
-        ok = any(dpc.has(f"{D}.loc[{D}.coverage > 0.5, 'value'] = {D}{a}[{D}.coverage > 0.5].value / {D}{b}[{D}.coverage > 0.5].coverage", bind=False) for a in ("", ".loc") for b in ("", ".loc")) \
-            or dpc.has(f"{D}.loc[{D}.coverage > 0.5, 'value'] = {D}.loc[{D}.coverage > 0.5, 'value'] / {D}.loc[{D}.coverage > 0.5, 'coverage']", bind=False)
-        r2.require(ok, f"{ds.key}|rescale-on-kept-rows", ds.where(s), "the 1/coverage scaling must be applied to exactly the kept rows (coverage > 0.5), value column only")
+    r2.inst(f"{ds.key}|rescale-sites={len(sites)}")
     # no other function divides usage by coverage
     n_other = 0
     for f in chk.repo.all_functions():
